@@ -381,6 +381,18 @@ def _bool_returns(fn: ast.FunctionDef) -> ast.FunctionDef:
             if st.value is not None and _is_boolish(st.value) and not isinstance(st.value, ast.Constant):
                 return ast.copy_location(ast.If(test=st.value, body=[ast.copy_location(ast.Return(value=ast.Constant(value=True)), st)],
                                                 orelse=[ast.copy_location(ast.Return(value=ast.Constant(value=False)), st)]), st)
+            if isinstance(st.value, ast.Tuple):
+                # return (x, <condition>)  ->  if <condition>: return (x, True) else: return (x, False)
+                idx = [i for i, e in enumerate(st.value.elts) if _is_boolish(e) and not isinstance(e, ast.Constant)]
+                if len(idx) == 1 and all(substitutable(e) for e in st.value.elts[:idx[0]]):
+                    i = idx[0]
+
+                    def with_(v):
+                        t = copy.deepcopy(st.value)
+                        t.elts[i] = ast.Constant(value=v)
+                        return ast.copy_location(ast.Return(value=t), st)
+
+                    return ast.copy_location(ast.If(test=st.value.elts[i], body=[with_(True)], orelse=[with_(False)]), st)
             return st
 
         def visit_FunctionDef(self, n):
@@ -773,7 +785,9 @@ class Summariser:
                     eff_iter = effects + [Eff("for", node.ast.target, it, node.line, lstack, node.ast, False,
                                               frozenset(nm for nm, v in env.items() if isinstance(v, ast.Name) and v.id == nm))]
                     choices = [(s, lab) for s, lab in succ if lab == "iter"]
-                    if not self.nonempty(node.ast, env):
+                    if isinstance(it, (ast.List, ast.Tuple, ast.Set)) and not it.elts:
+                        choices = [(s, lab) for s, lab in succ if lab == "exhaust"]  # nothing to iterate
+                    elif not self.nonempty(node.ast, env):
                         choices += [(s, lab) for s, lab in succ if lab == "exhaust"]
                     ld = loops_done | {n}
                     for s, lab in choices:
